@@ -325,7 +325,8 @@ pub fn has_ambiguous_global_after_unknown(rs: &RefSpec, doc: &[Node]) -> bool {
     }
     fn rec(rs: &RefSpec, sibs: &[Node]) -> bool {
         for i in 0..sibs.len() {
-            if i + 1 < sibs.len() && ends_with_unknown(&sibs[i]) && rs.is_global(sibs[i + 1].id) {
+            // (an element with an id outside the specification never ends a master either)
+            if i + 1 < sibs.len() && ends_with_unknown(&sibs[i]) && (rs.ty(sibs[i + 1].id).is_none() || rs.is_global(sibs[i + 1].id)) {
                 return true;
             }
             if let Kind::Master(ch) = &sibs[i].kind {
